@@ -76,3 +76,30 @@ func All(pkg *packages.Package, file string, ana *analysis.Analysis, rootDir str
 	}
 	return outs
 }
+
+// Decls returns the declaration lists a target hands to generator.WriteDeclarations (per output file: "" for the
+// single-file targets), as the generator supplied them.
+func Decls(target string, ana *analysis.Analysis, rootDir string) (lists map[string][]generator.Declaration, class, msg string) {
+	lists = map[string][]generator.Declaration{}
+	class, msg = synth.Guard(func() {
+		switch target {
+		case "go/unions":
+			lists[""] = gounions.Generate(ana)
+		case "go/sqlcrud":
+			lists[""] = sqlcrud.Generate(ana, false)
+		case "go/sqlcrud+sets":
+			lists[""] = sqlcrud.Generate(ana, true)
+		case "go/randdata":
+			lists[""] = randdata.Generate(ana)
+		case "sql":
+			lists[""] = gensql.Generate(ana)
+		case "typescript/types":
+			lists[""] = typescript.Generate(ana)
+		case "dart":
+			for _, f := range dart.Generate(rootDir, []*analysis.Analysis{ana}) {
+				lists[f.Filename] = f.Content
+			}
+		}
+	})
+	return lists, class, msg
+}
